@@ -207,7 +207,7 @@ func wantsFunc(g *Gen, f *ssa.Function, prop string) bool {
 	switch prop {
 	case "":
 		return true
-	case "C03", "C06", "C07", "C09", "C15":
+	case "C03", "C06", "C07", "C09", "C15", "C18":
 		return g.ReachableFromAPI()[f]
 	}
 	c := g.Spec.Contracts[FuncKey(f)]
